@@ -235,7 +235,7 @@ func checkLoneScan(p *Program, r *Result, fn *ssa.Function) {
 		return
 	}
 	// the loop must be left only through its header (no break) or by returns
-	if len(scan.earlyExits()) != 0 {
+	if len(p.loopEarlyExits(scan)) != 0 {
 		r.Bad(sub, "scan", r.pos(scanRet), "the scan loop can be left early (break): later stanzas would not be examined")
 		return
 	}
